@@ -322,11 +322,13 @@ PROPS = {
         "assumptions": ["64-bit target"],
         "level_text": "Proof: round trip, zig-zag bijection, minimal length, continuation bits proved for all 2^32 values on a bit-exact "
                       "BitVec transcription of write_var_*/read_var_* (bv_decide), and the round trip of the Nat-level ladder used by the "
-                      "codec layer through the operation-tree reader for any following data (omega); both layers and all nine real "
+                      "codec layer through the operation-tree reader for any following data (omega); the bit-level writers equal the ladder "
+                      "byte for byte for all 2^32 values (layers_agree_*); both layers and all nine real "
                       "sink/source pairs are run against each other on every check (exhaustively over 2^32 in the thorough tier).",
         "level_note": "Trusted: Lean kernel; bv_decide's native axioms (Lean.ofReduceBool) in the bit-level theorems only; the transcription "
-                      "of the Rust shifts/masks is by hand and tied to the code by the varint family; the BitVec and Nat layers are tied to "
-                      "each other by the same run, not yet by a theorem.",
+                      "of the Rust shifts/masks is by hand and tied to the code by the varint family; the BitVec and Nat writers are proved equal byte for byte "
+                      "(layers_agree_u32 / layers_agree_i32); the readers are tied on encoder output through the two round trips and on other "
+                      "bytes by the run.",
         "technique": "Lean 4 proof (bv_decide + omega) over a bit-exact model, differential check vs the real sinks/sources",
     },
 }
